@@ -222,7 +222,11 @@ def scalar_obs(el, x):
     flag, exc, events = observe_set(el, x)
     if exc:
         return {"exc": exc, "flag": None, "value": None, "u": None, "raw": None, "signals": None}, events
-    own = [adapted for sender, adapted, _, _ in events if sender is el]
+    def outform(val):
+        if isinstance(val, dict) and val.get("t") in ("str", "other") and isinstance(val.get("v"), str):
+            return dict(val, v=S.cps(val["v"]))
+        return val
+    own = [[adapted, {"v": outform(val), "u": None if u is None else S.cps(u)}] for sender, adapted, val, u in events if sender is el]
     return {"exc": None, "flag": flag, "value": S.out_nat(el.value), "u": S.cps(el.u), "raw": S.out_nat(el.raw), "signals": own,
             "_foreign_signals": sum(1 for e in events if e[0] is not el)}, events
 
@@ -355,6 +359,22 @@ def index_tree(el, sch, path, out):
     out[id(el)] = path
     for i, (c, cs) in enumerate(children_of(el, sch)):
         index_tree(c, cs, path + [i], out)
+
+
+def canon_any(el):
+    """Canonical state of any element, without a schema description (used inside signal handlers)."""
+    from flatland.schema.compound import Compound, JoinedString
+    from flatland.schema.containers import Mapping, Sequence
+    leafstate = lambda c: {"v": S.out_nat(c.value), "u": S.cps(c.u)}
+    if isinstance(el, JoinedString):
+        return {"joined": [leafstate(c) for c in el]}
+    if isinstance(el, Compound):
+        return {"date": [leafstate(c) for c in el.values()]}
+    if isinstance(el, Sequence):
+        return {"seq": [canon_any(c) for c in el]}
+    if isinstance(el, Mapping):
+        return {"dict": [canon_any(c) for c in el.values()]}
+    return leafstate(el)
 
 
 def tree_canon(el, sch):
@@ -534,12 +554,11 @@ def run_tree(case):
     events = []
 
     def receiver(sender, adapted=None, **kw):
-        snap = None
-        if sender is el:
-            try:
-                snap = tree_canon(el, sch)
-            except Exception as e:  # noqa: BLE001
-                snap = {"raised": type(e).__name__}
+        # what a listener can read from the sender inside the handler
+        try:
+            snap = canon_any(sender)
+        except Exception as e:  # noqa: BLE001
+            snap = {"raised": type(e).__name__}
         events.append((sender, adapted, snap))
     LAST_RAISE.clear()
     with element_set.connected_to(receiver):
@@ -559,7 +578,7 @@ def tree_obs(case):
         return {"exc": exc, "flag": None, "sigs": None, "tree": None}
     paths = {}
     index_tree(el, sch, [], paths)
-    sigs = [[paths.get(id(sender), ["orphan"]), adapted] for sender, adapted, _ in events]
+    sigs = [[paths.get(id(sender), ["orphan"]), adapted, snap] for sender, adapted, snap in events]
     return {"exc": None, "flag": flag, "sigs": sigs, "tree": tree_canon(el, sch)}
 
 
@@ -668,6 +687,8 @@ class C04(Property):
         "Flatland.C04.Proofs.C04_reset_value_fails",
         "Flatland.C04.Proofs.C04_reset_none_fails",
         "Flatland.C04.Proofs.signals_spec",
+        "Flatland.C04.Proofs.signal_after_final",
+        "Flatland.C04.Proofs.scalarSetTrace_eq",
         "Flatland.C04.Proofs.seq_flag",
         "Flatland.C04.Proofs.dict_flag",
         "Flatland.C04.Proofs.joined_flag",
